@@ -232,4 +232,109 @@ theorem run_mid_nosync (old fd perm) (d : Content) :
     simp [run, step, exec, midFS, endNoSyncFS, destF, tmpF, lookup, List.lookup,
       parentErr, kindAt, inodeAt, dirInode, below, unbind, moveNames, hasChild]
 
+/-! ### Names created by a call -/
+
+theorem mem_unbind {ns : List (Path × Nat)} {p : Path} {e : Path × Nat} (h : e ∈ unbind ns p) : e ∈ ns := by
+  unfold unbind at h
+  exact (List.mem_filter.1 h).1
+
+theorem setInode_names (s : FS) (i : Nat) (f : Inode → Inode) : (setInode s i f).names = s.names := rfl
+
+theorem mem_moveNames {ns : List (Path × Nat)} {src dst x : Path} {i : Nat} (h : (x, i) ∈ moveNames ns src dst) :
+    (x, i) ∈ ns ∨ ∃ y j, (y, j) ∈ ns ∧ src.isPrefixOf y = true ∧ x = dst ++ y.drop src.length := by
+  unfold moveNames at h
+  obtain ⟨e, he, heq⟩ := List.mem_map.1 h
+  by_cases hp : src.isPrefixOf e.1 = true
+  · simp only [hp, if_true, Prod.mk.injEq] at heq
+    right; exact ⟨e.1, e.2, he, hp, heq.1.symm⟩
+  · simp only [hp] at heq
+    left; rw [← heq]; exact he
+
+theorem names_step (s : FS) (c : Call) (x : Path) (i : Nat) (h : (x, i) ∈ (step s c).names) :
+    (∃ j, (x, j) ∈ s.names) ∨ (created c = some x ∧ ∀ a b, c ≠ .rename a b) ∨
+    (∃ src dst, c = .rename src dst ∧ ∃ y j, (y, j) ∈ s.names ∧ src.isPrefixOf y = true ∧ x = dst ++ y.drop src.length) := by
+  cases c with
+  | rename src dst =>
+    simp only [step, exec] at h
+    repeat' split at h
+    all_goals (try (left; exact ⟨i, h⟩))
+    all_goals (
+      simp only at h
+      rcases mem_moveNames h with h' | ⟨y, j, hy, hp, hx⟩
+      · left; exact ⟨i, mem_unbind h'⟩
+      · right; right; exact ⟨src, dst, rfl, y, j, mem_unbind hy, hp, hx⟩)
+  | _ =>
+    simp only [step, exec] at h
+    repeat' split at h
+    all_goals (try (left; exact ⟨i, h⟩))
+    all_goals (try (left; exact ⟨i, mem_unbind h⟩))
+    all_goals (try (
+      simp only [List.mem_cons, Prod.mk.injEq] at h
+      rcases h with ⟨rfl, _⟩ | h
+      · right; left; simp_all [created]
+      · left; exact ⟨i, h⟩))
+
+/-- A path that may exist after the operation although it did not exist before. -/
+def okPath (dest : Path) (tmp : Path → Bool) (x : Path) : Prop :=
+  dest.isPrefixOf x = true ∨ x.isPrefixOf dest = true ∨ tmp x = true
+
+theorem isPrefixOf_append {a b : Path} (r : Path) (h : a.isPrefixOf b = true) : a.isPrefixOf (b ++ r) = true := by
+  rw [List.isPrefixOf_iff_prefix] at *
+  exact h.trans (List.prefix_append b r)
+
+theorem onlyTemp_cons (dest : Path) (tmp : Path → Bool) (c : Call) (t : List Call) :
+    onlyTemp dest tmp (c :: t) = true ↔ onlyTemp dest tmp [c] = true ∧ onlyTemp dest tmp t = true := by
+  simp [onlyTemp]
+
+theorem step_ok (dest : Path) (tmp : Path → Bool) (hmono : ∀ p r, tmp p = true → tmp (p ++ r) = true)
+    (init : List (Path × Nat)) (s : FS) (c : Call) (hc : onlyTemp dest tmp [c] = true)
+    (hs : ∀ x i, (x, i) ∈ s.names → (∃ j, (x, j) ∈ init) ∨ okPath dest tmp x) :
+    ∀ x i, (x, i) ∈ (step s c).names → (∃ j, (x, j) ∈ init) ∨ okPath dest tmp x := by
+  intro x i hx
+  rcases names_step s c x i hx with ⟨j, hj⟩ | ⟨hcr, hnr⟩ | ⟨src, dst, rfl, y, j, _, _, rfl⟩
+  · exact hs x j hj
+  · right
+    simp only [onlyTemp, List.all_cons, List.all_nil, Bool.and_true] at hc
+    cases c with
+    | rename a b => exact absurd rfl (hnr a b)
+    | _ =>
+      simp only [hcr, Bool.or_eq_true] at hc
+      try (rcases hc with (h | h) | h <;> simp [okPath, h])
+      try (simp [created] at hcr)
+  · right
+    simp only [onlyTemp, List.all_cons, List.all_nil, Bool.and_true, created, Bool.or_eq_true] at hc
+    rcases hc with h | h
+    · left; exact isPrefixOf_append _ h
+    · right; right; exact hmono _ _ h
+
+theorem run_ok (dest : Path) (tmp : Path → Bool) (hmono : ∀ p r, tmp p = true → tmp (p ++ r) = true)
+    (init : List (Path × Nat)) (t : List Call) :
+    ∀ s, onlyTemp dest tmp t = true →
+      (∀ x i, (x, i) ∈ s.names → (∃ j, (x, j) ∈ init) ∨ okPath dest tmp x) →
+      ∀ p q, t = p ++ q → ∀ x i, (x, i) ∈ (run s p).names → (∃ j, (x, j) ∈ init) ∨ okPath dest tmp x := by
+  induction t with
+  | nil =>
+    intro s _ hs p q hp
+    have : p = [] := by
+      cases p with
+      | nil => rfl
+      | cons a b => exact absurd hp (by simp)
+    subst this; exact hs
+  | cons c t ih =>
+    intro s ht hs p q hp
+    cases p with
+    | nil => exact hs
+    | cons c' p' =>
+      simp only [List.cons_append, List.cons.injEq] at hp
+      obtain ⟨hcc, hp'⟩ := hp
+      subst hcc
+      rw [onlyTemp_cons] at ht
+      rw [run_cons]
+      exact ih (step s c) ht.2 (step_ok dest tmp hmono init s c ht.1 hs) p' q hp'
+
+theorem below_append {d p : Path} (r : Path) (h : below d p = true) : below d (p ++ r) = true := by
+  simp only [below, Bool.and_eq_true, decide_eq_true_eq] at *
+  refine ⟨isPrefixOf_append r h.1, ?_⟩
+  simp only [List.length_append]; omega
+
 end PB.FsAtomic
